@@ -10,4 +10,5 @@ for id in "$@"; do
   echo "$id: $out"
 done
 git checkout -- . 
+(cd /verif && python3 -c "import sys; sys.path.insert(0,'runner'); import rtl_common as R; R.regenerate()" >/dev/null 2>&1)
 git status --short | grep -v _build
